@@ -82,11 +82,11 @@ sec6.append("Outside the claims (recorded in the notes, not findings): re-using 
 sec8 = ["## 8. Seeded changes: which check catches which change\n",
         "Each change was written by a fresh sub-agent that saw only the property text and a scratch worktree (nothing from /verif), "
         "breaks that property while all 60 tests pass, and was confirmed by the coordinator in another scratch worktree "
-        "(`harness/seedtool.py verify`: demo passes without, tests pass with, demo fails with). Five rounds of 40 (two per property): "
+        "(`harness/seedtool.py verify`: demo passes without, tests pass with, demo fails with). Five rounds of 40 (two per property) and a sixth of 20: "
         "round 1 (ids `Cxx`, `Cxxb`) was available to the builders while they tuned their checks; rounds 2-5 (`c/d`, `e/f`, `g/h`, `i/j`) were "
         "each first run BLIND against the checks as they stood, then used to strengthen the generators *generically* (never by "
         "special-casing a patch): blind detection 31/40, 26/40, 32/40 (29 with a concrete replay), 31/40 (30 concrete; two seeded "
-        "changes made the implementation loop forever and hung the check, which led to the watchdog of section 4); a sixth, smaller blind round (`k`: one change each for C01, C05, C06, C07, C08, C09, C11, C12, C13, C14, C15, C16, C17, C19, written after all strengthening) was caught 14/14 at quick tier, each with a concrete replay. The classes of "
+        "changes made the implementation loop forever and hung the check, which led to the watchdog of section 4); a sixth blind round (`k`: one change for each of the 20 properties, written after all strengthening by agents that saw only the property text) was caught 20/20 at quick tier, each with a concrete replay. The classes of "
         "input each blind round showed to be missing are the lessons (a)-(s) of `AGENT_BRIEF.md`: history sensitivity / state leaking "
         "between calls, optional parameters, fresh string objects, sizes past 256, falsy-but-legal values, related arguments, dropped "
         "references, mutable return values, document-first generation, element-name-keyed code paths, deep positions, parser "
